@@ -1646,6 +1646,13 @@ func (s *BgpServer) propagateUpdateToNeighbors(rib *table.TableManager, source *
 								bestList = append(bestList, s.promoteSendMaxFiltered(targetPeer, destination, 1)...)
 							}
 							targetPeer.updateRoutes(bestList...)
+						} else {
+							// The path may replace one that was held back by send-max.
+							// It is no candidate for a freed slot any more, and the mark
+							// must not outlive it: a later version that is advertised
+							// would still count as never sent, and its withdrawal would
+							// be swallowed.
+							targetPeer.unsetPathSendMaxFiltered(replaced)
 						}
 					} else if alreadySent || targetPeer.getRoutesCount(f, newPath.GetPrefix()) < targetPeer.getAddPathSendMax(f) {
 						bestList = []*table.Path{newPath}
